@@ -4,6 +4,11 @@
 // granularity in the rewritten files and a task never blocks for real on a mutex another parked task
 // holds. Without a handler installed the inserted calls do nothing; program semantics are unchanged.
 //
+// Every Lock/RLock statement is followed by simhook.Yield("auto.locked") and every Unlock/RUnlock (also a
+// deferred one) by simhook.Yield("auto.unlocked"): the simulator counts the locks a task holds and does
+// not preempt it at plain yields meanwhile (only where it goes on to acquire another lock), so no task is
+// ever parked holding a mutex that a goroutine outside the simulator's control could block on.
+//
 // Where nothing may be inserted (the caller does not hold the scheduler's token there):
 //   - before a statement that itself calls simhook.* (TaskStart, AfterBlock, ... come first),
 //   - before a select statement and right after a statement calling simhook.BeforeBlock or simhook.Spawn,
@@ -74,6 +79,26 @@ func lockProbe(call *ast.CallExpr, sel *ast.SelectorExpr) ast.Stmt {
 	return f.Decls[0].(*ast.FuncDecl).Body.List[0]
 }
 
+func markStmt(name string, deferred bool) ast.Stmt {
+	call := &ast.CallExpr{
+		Fun:  &ast.SelectorExpr{X: ast.NewIdent("simhook"), Sel: ast.NewIdent("Yield")},
+		Args: []ast.Expr{&ast.BasicLit{Kind: token.STRING, Value: strconv.Quote(name)}, ast.NewIdent("nil")},
+	}
+	if deferred {
+		return &ast.DeferStmt{Call: call}
+	}
+	return &ast.ExprStmt{X: call}
+}
+
+// isUnlockCall recognises `x.Unlock()` / `x.RUnlock()` as a statement or as the call of a defer.
+func isUnlockCall(c *ast.CallExpr) bool {
+	if c == nil || len(c.Args) != 0 {
+		return false
+	}
+	sel, ok := c.Fun.(*ast.SelectorExpr)
+	return ok && (sel.Sel.Name == "Unlock" || sel.Sel.Name == "RUnlock")
+}
+
 func isLockCall(s ast.Stmt) (*ast.CallExpr, *ast.SelectorExpr, bool) {
 	es, ok := s.(*ast.ExprStmt)
 	if !ok {
@@ -110,6 +135,7 @@ func rewriteList(list []ast.Stmt, from int, firstAllowed bool) []ast.Stmt {
 			_ = ls
 			eligible = false
 		}
+		_, _, isLock := isLockCall(s)
 		if eligible {
 			if c, sel, ok := isLockCall(s); ok {
 				out = append(out, lockProbe(c, sel))
@@ -119,7 +145,20 @@ func rewriteList(list []ast.Stmt, from int, firstAllowed bool) []ast.Stmt {
 				inserted++
 			}
 		}
+		// the simulator keeps a per-task count of held locks (a task is not preempted at plain yields while
+		// it holds one): tell it about every acquisition and release in this file
+		if ds, ok := s.(*ast.DeferStmt); ok && isUnlockCall(ds.Call) {
+			out = append(out, markStmt("auto.unlocked", true)) // deferred before the unlock: runs after it
+		}
 		out = append(out, s)
+		if isLock {
+			out = append(out, markStmt("auto.locked", false))
+		}
+		if es, ok := s.(*ast.ExprStmt); ok {
+			if c, ok := es.X.(*ast.CallExpr); ok && isUnlockCall(c) {
+				out = append(out, markStmt("auto.unlocked", false))
+			}
+		}
 		// between Spawn and the go statement the child task exists for the scheduler but has no goroutine yet
 		afterBeforeBlock = callsSimhook(s, "BeforeBlock") || callsSimhook(s, "Spawn")
 	}
